@@ -129,7 +129,9 @@ impl PWorld {
     }
 
     pub fn set_add(&self, t: u32, m: AddMode) {
-        self.towers[t as usize].st.lock().unwrap().add = m;
+        let mut st = self.towers[t as usize].st.lock().unwrap();
+        st.add = m;
+        st.renewed = false;
     }
     pub fn set_reg(&self, t: u32, m: RegMode) {
         self.towers[t as usize].st.lock().unwrap().reg = m;
